@@ -49,6 +49,7 @@ class Report:
         self._known = [k for k in load_known_findings()
                        if k.get("status") == "known" and pid in k.get("property", "").replace(",", " ").split()]
         self._vcount = 0
+        self.by_sig = {}
 
     # ---- TLC bookkeeping
     def add_tlc(self, name, res, must_pass=True):
@@ -104,7 +105,8 @@ class Report:
                 self.known_hit[sig] = (w, c + 1)
                 return True
         self._vcount += 1
-        if len(self.violations) < 25:
+        self.by_sig[sig] = self.by_sig.get(sig, 0) + 1
+        if len(self.violations) < 25 and self.by_sig[sig] <= 3:
             if path is None:
                 path = self.write_replay("v%d_%s" % (self._vcount, sig), {"sig": sig, "text": text, "case": case})
             self.violations.append((sig, text, path))
@@ -137,6 +139,7 @@ class Report:
             "assumptions": self.assumptions,
             "wall_s": round(wall, 2),
             "violations": self._vcount,
+            "violations_by_signature": self.by_sig,
             "notes": self.notes,
         }
         os.makedirs(EVID, exist_ok=True)
@@ -148,7 +151,9 @@ class Report:
             print("VIOLATION property=%s replay=%s" % (self.pid, path))
             print("  %s: %s" % (sig, text[:600]))
         if self._vcount > len(self.violations):
-            print("  (+%d further violations not listed)" % (self._vcount - len(self.violations)))
+            print("  (+%d further violations not listed); by signature:" % (self._vcount - len(self.violations)))
+            for sg, c in sorted(self.by_sig.items()):
+                print("    %6d  %s" % (c, sg))
         print("%s %s: states=%d transitions=%d impl_cases=%d violations=%d known=%d wall=%.1fs" % (
             self.pid, self.tier, self.states, self.transitions, self.impl, self._vcount,
             sum(c for _, c in self.known_hit.values()), wall))
